@@ -781,6 +781,10 @@ class Process(StateMachine, persistence.Savable, metaclass=ProcessStateMachineMe
             # (for a port namespace any mapping is copied, not only a ``dict``: ``pre_process`` fills the defaults in place, which
             # must not happen to the caller's object, nor to the dictionaries inside a read-only mapping)
             is_namespace = isinstance(port, ports.PortNamespace)
+            if port is not None and not is_namespace:
+                # The value of an ordinary port: a dictionary given there is a value like any other (copying it would turn an
+                # instance of a ``dict`` subclass into a plain ``dict``, which a port declared with that type then refuses)
+                return value
             if isinstance(value, dict) or (is_namespace and isinstance(value, collections.abc.Mapping)):
                 return {
                     key: recursively_copy_dictionaries(subvalue, port.get(key) if is_namespace else None)
